@@ -630,9 +630,11 @@ def _compute_expression_ir(
         object_names.get(id(obj), f"w{j}") for j, obj in enumerate(coefficients)
     ]
 
+    # The kernel reads constants at the offsets of the original expression
+    # (see original_constant_offsets), so count and name those
     ir["constant_names"] = [
         object_names.get(id(obj), f"c{j}")
-        for j, obj in enumerate(ufl.algorithms.analysis.extract_constants(expr))
+        for j, obj in enumerate(ufl.algorithms.analysis.extract_constants(original_expr))
     ]
 
     expr_name = object_names.get(id(original_expr), index)
